@@ -20,8 +20,8 @@ PROPS = {
     # property -> list of contract modules (each: variants(world, tier) and optional extras(tier))
     "C01": ["contracts.c01_simplifier"],
     "C02": ["contracts.c01_simplifier", "contracts.c02_model"],
-    "C03": ["contracts.c03_typechecker", "contracts.c06_constructors"],
-    "C04": ["contracts.c04_hashcons", "contracts.c06_constructors", "contracts.c05_substitution"],
+    "C03": ["contracts.c03_typechecker", "contracts.c06_constructors", "contracts.c04_hashcons", "contracts.c14_walkers"],
+    "C04": ["contracts.c04_hashcons", "contracts.c06_constructors", "contracts.c05_substitution", "contracts.c14_walkers"],
     "C05": ["contracts.c05_substitution", "contracts.c14_walkers"],
     "C06": ["contracts.c06_constructors"],
     "C07": ["contracts.c07_printers"],
@@ -36,7 +36,7 @@ PROPS = {
     "C16": ["contracts.c16_tracking", "contracts.c16_script"],
     "C17": ["contracts.c17_smtlib_solver"],
     "C18": ["contracts.c18_optimizer", "contracts.c18_loop", "contracts.c18_multi", "contracts.c06_constructors"],
-    "C20": ["contracts.c14_walkers", "contracts.c10_rewriters"],
+    "C20": ["contracts.c14_walkers", "contracts.c10_rewriters", "contracts.c07_printers"],
 }
 
 
